@@ -1,0 +1,22 @@
+//go:build verif
+
+// Contracts for the verification machinery in /verif (comment-only; never compiled into a binary).
+// Property C10: best-effort CPU suppression keeps BE off protected CPUs and inside its budget.
+
+package helpers
+
+//@ uses pkg/util
+
+// CPU (cores) reserved on the node: max(kubelet reservation = capacity - allocatable (>= 0), annotation reservation).
+//@ spec func nodeReservedCPU(node *corev1.Node) float64 = max(max0(val(node.Status.Capacity, corev1.ResourceCPU) - val(node.Status.Allocatable, corev1.ResourceCPU)), node.ObjectMeta.Annotations != nil ? val(util.GetNodeReservationFromAnnotation(node.ObjectMeta.Annotations), corev1.ResourceCPU) : 0)
+
+//@ func GetNodeResourceReserved [C10]
+//@   requires node != nil
+//@   ensures #cpu0: node.ObjectMeta.Annotations == nil ==> val(result, corev1.ResourceCPU) == nodeReservedCPU(node)
+//@   ensures #cpu1: node.ObjectMeta.Annotations != nil ==> val(result, corev1.ResourceCPU) == nodeReservedCPU(node)
+//@   modifies nothing
+//@   option inline GetNodeReservationFromKubelet
+
+// CalculateFilterPodsUsed calls its two filter parameters dynamically ("havoc:dynamic call of a function value"
+// when verified on its own), so it carries no contract here: callers that pass function constants get it inlined
+// (see cpusuppress.calculateBESuppressCPU), where the system part max(reserved, max(0, ...)) is checked in place.
